@@ -19,7 +19,7 @@ CHECKS = {
          "Does not decide data-race freedom of user code around iterators; rewriter template part (locals live inside the per-call thunk) is decided under C02/C03's rules.",
          "DESIGN.md §4 C14"),
  "C17": ("abstract stack-height analysis over the K1 state graph of the loop driver; static call-graph cycle check",
-         "Decides the structural cause of stack growth: with a body that completes synchronously (Normal/Continue), before and after a resumption, the abstract activation stack at successive body calls of For/While/Loop must not get deeper; no static recursion in package seq.",
+         "Decides the structural cause of stack growth: with a body that completes synchronously (Normal/Continue), before and after a resumption, the abstract activation stack at successive body calls of For/While/Loop must not get deeper (also for a loop nested in a loop, incl. the depth at which the inner loop's condition and post statement are reached in successive runs of the same loop value); Bind/BindRecv/Delay/Combine values run repeatedly reach their caller-supplied function at the same depth in every run; no static recursion in package seq.",
          "No numeric bound is decided; depth contributed by user thunks is assumed bounded by term size; delegation depth grows linearly by construction.",
          "DESIGN.md §4 C17"),
  "C18": ("resolved-program scan for go/defer/recover/select/sync in the runtime and in emitted AST; path rule on MoveNext/Send",
@@ -60,7 +60,7 @@ CHECKS = {
          "DESIGN.md §4 C02"),
  "C07": ("pattern-term extraction of optimizeDelayCall checked against certification of package seq; table extraction of the eta-reduction callback over closure shapes x callee classes; call-graph inventory of rewrite rules; per-file step order (two-file drive)",
          "Decides the side conditions of both optimisations from their source: Delay elision only under certified effect-free constructors / Bind(basic literal), on thunks consisting of the single return; eta reduction keeps the closure on all 18 meaning-changing rows (mutable function variable, method value on user variable, builtin, conversion, generic function with inferred arguments, swapped/duplicated/dropped arguments, differing types, variadic slice passing); imports cleaned before printing; files not using seq are not written.",
-         "go-imports and the pattern-combinator library are trusted; observational equality of the two stages on all programs is not decided.",
+         "go-imports and the pattern-combinator library are trusted; observational equality of the two stages on all programs is not decided. Because Delay elision makes one term value serve many runs, the re-enterability of every seq term (second run from scratch, overlapping runs, no constructor-level state) is re-established in this check.",
          "DESIGN.md §4 C07"),
  "C11": ("abstract interpretation of the statement rewriter on symbolic ASTs of every supported kind (dispatch, factory totality, closing of thunk bodies), termination-checker table vs spec reference, block tables, loop-call template, branch pass, eta table, import-name dataflow",
          "Decides the classes of compiler panics and ill-formed output the property names: every supported statement kind is accepted, the AST factory and the termination checker never panic on their optional parts / ordinary breaks, every statement list wrapped into a thunk ends in a return on its path, no nil node reaches a loop call, select is a break target in nested closures, closures over builtins/conversions/generics are kept, seq is referred to under its import name.",
@@ -76,7 +76,7 @@ CHECKS = {
          "DESIGN.md §4 C15"),
  "C16": ("abstract interpretation of GoGen / cogen with constant folding of string functions (file filter and both printers evaluated on concrete names), header constant checked with go/build/constraint, event-order rule on the intermediate directory",
          "Decides necessary conditions of 'exactly the derived files': header well-formed and generated-code convention; loader tag = negated header tag; exactly *_co.go / *_co_test.go processed; each is written exactly to the sibling with the suffix removed (also for base names and directories containing the marker), through an intermediate directory that is emptied before and removed after; files not using the runtime are not written; cogen only runs in go:generate mode.",
-         "That the package builds, its tests pass, and a second run is byte-identical quantify over file-system states and toolchain behaviour and are not decided.",
+         "GoGen is evaluated with the default options and with WithBuildTag/WithFileSuffix. That the package builds and its tests pass afterwards is the correctness of the whole compiler and is answered by the checks of C01-C07 and C11-C13, not by this one; byte identity of a second run quantifies over file-system states and toolchain behaviour and is not decided.",
          "DESIGN.md §4 C16"),
 }
 
